@@ -73,6 +73,13 @@ class World:
             )
         return self.tasks[n]
 
+    def task_profile(self, t, strategies):
+        if t % 2 == 0:
+            prof = self.profile(t % 3)
+            prof._execution_strategies = ExecutionStrategies(strategies)
+            return prof
+        return WorkProfile(name=f"TP{t}", execution_strategies=ExecutionStrategies(strategies))
+
     def profile(self, n):
         if n not in self.profiles:
             self.profiles[n] = WorkProfile(name=f"P{n}")
@@ -181,10 +188,8 @@ class World:
                 if name == "p_place":
                     t = self.task(op["t"])
                     # task.available_execution_strategies comes from the task's profile
-                    t._profile = WorkProfile(
-                        name=f"TP{op['t']}",
-                        execution_strategies=ExecutionStrategies([self.strat(s) for s in op["strats"]]),
-                    )
+                    # every second task runs one of the loadable profiles (as a model-serving request would)
+                    t._profile = self.task_profile(op["t"], [self.strat(s) for s in op["strats"]])
                     ret = bool(p.place_task(t, execution_strategy=self.strat(op.get("s")), worker_id=wid))
                 elif name == "p_remove":
                     p.remove_task(EventTime(0, EventTime.Unit.US), self.task(op["t"]))
@@ -213,7 +218,10 @@ class World:
                 elif name == "get_allocated_res":
                     ret = [[x.name, rid_back(x.id), q] for x, q in r.get_allocated_resources(self.comp(op["c"]))]
                 elif name == "w_place":
-                    w.place_task(self.task(op["t"]), self.strat(op["s"]))
+                    t = self.task(op["t"])
+                    if op["t"] % 2 == 0:
+                        t._profile = self.task_profile(op["t"], [self.strat(op["s"])] if op.get("s") else [])
+                    w.place_task(t, self.strat(op["s"]))
                 elif name == "w_remove":
                     w.remove_task(EventTime(0, EventTime.Unit.US), self.task(op["t"]))
                 elif name == "w_load":
